@@ -786,4 +786,6 @@ def run(ck, tier):
     from .. import ownership as _own2
     ck.rule('R10', 'no unsound memoisation (a caching decorator on a method, or on a function that returns a mutable container) in the modules this property rests on')
     ck.guard(_own2.rule_no_unsafe_memo, ck, cx, 'R10', ('pymodbus.framer', 'pymodbus.framer.socket_framer', 'pymodbus.framer.rtu_framer', 'pymodbus.framer.ascii_framer', 'pymodbus.framer.binary_framer', 'pymodbus.framer.tls_framer', 'pymodbus.utilities'), 'a packet is built or parsed from a value cached for another message')
+    from .. import ownership as _own4
+    ck.guard(_own4.rule_instance_owned, ck, cx, 'R11', _own4.DECODERS, 'a class registered on another decoder takes over a standard function code: the packet of a standard message handed to a fresh receiver is sized and decoded as something else', 4)
     return cx.idx
